@@ -185,6 +185,8 @@ func (e *sgEnv) putS(ctx proof.ProverContext, rec *[]byte, vals []*big.Int) erro
 	return ctx.Put(e.scs(vals))
 }
 
+func bindish(skip string) bool { return skip == "bind" || skip == "bindX" || skip == "bindY" }
+
 type degErr struct{}
 
 func (degErr) Error() string { return "degenerate challenge" }
@@ -224,7 +226,7 @@ func pairForge(e *sgEnv, r *kc.Rng, in *shInst, o pairForgeOpts, rec *[]byte) pr
 			A[i] = z.mul(a[i], in.g)
 			U[i] = z.mul(u[i], in.g)
 			W[i] = z.mul(z.mul(gamma, w[i]), in.g)
-			if o.skip == "bind" {
+			if bindish(o.skip) {
 				C[i] = z.mul(cc[i], in.g)
 			} else {
 				C[i] = z.mul(z.mul(gamma, a[pi[i]]), in.g)
@@ -259,7 +261,7 @@ func pairForge(e *sgEnv, r *kc.Rng, in *shInst, o pairForgeOpts, rec *[]byte) pr
 			tau = z.neg(l)
 		} else {
 			for i := range sigma {
-				if o.skip == "bind" {
+				if bindish(o.skip) {
 					sigma[i] = sgUniform(r, e.q)
 				} else {
 					sigma[i] = z.add(w[i], b[pi[i]]) // the value (33) and the binding force
@@ -269,7 +271,7 @@ func pairForge(e *sgEnv, r *kc.Rng, in *shInst, o pairForgeOpts, rec *[]byte) pr
 			solved := false
 			for try := 0; try < k && !solved; try++ {
 				j := (j0 + try) % k
-				if o.skip == "ss" || o.skip == "bind" {
+				if o.skip == "ss" || bindish(o.skip) {
 					j = try % k
 				}
 				// unknowns sigma_j and tau
@@ -317,6 +319,27 @@ func pairForge(e *sgEnv, r *kc.Rng, in *shInst, o pairForgeOpts, rec *[]byte) pr
 		rr := make([]*big.Int, k)
 		ss := make([]*big.Int, k)
 		switch o.skip {
+		case "bindY":
+			// the first link holds (the simple shuffle's X vector is A + λB), its Y vector is a valid simple
+			// shuffle of that but not C + λD
+			p2 := sgPerm(r, k)
+			for i := 0; i < k; i++ {
+				rr[i] = z.add(a[i], z.mul(lam, b[i]))
+			}
+			for i := 0; i < k; i++ {
+				ss[i] = z.mul(gamma, rr[p2[i]])
+			}
+			return ssForge(e, r, ctx, k, in.g, gamma, rr, ss, -1, rec)
+		case "bindX":
+			// the second link holds (Y vector C + λD), the X vector is whatever makes the simple shuffle valid
+			p2 := sgPerm(r, k)
+			for i := 0; i < k; i++ {
+				ss[i] = z.add(cc[i], z.mul(lam, d[i]))
+			}
+			for i := 0; i < k; i++ {
+				rr[p2[i]] = z.div(ss[i], gamma)
+			}
+			return ssForge(e, r, ctx, k, in.g, gamma, rr, ss, -1, rec)
 		case "bind":
 			// any valid simple shuffle w.r.t. (G, Γ): its vectors are unrelated to A, B, C, D
 			x0 := rndVec(r, e.q, k)
